@@ -64,6 +64,54 @@ def grep_forbidden():
     return hits
 
 
+def import_closure(prop):
+    """module names (SspModel.*) the property's theorem file transitively imports"""
+    seen, todo = set(), [f"SspModel.Props.{prop}"]
+    while todo:
+        m = todo.pop()
+        if m in seen:
+            continue
+        seen.add(m)
+        f = LEAN / (m.replace(".", "/") + ".lean")
+        if f.exists():
+            todo += re.findall(r"^import (SspModel\.[\w.]+)", f.read_text(), re.M)
+    return seen
+
+
+def item_names(item):
+    """the `Generated.*` identifiers a translator item produces (None: concerns every property)"""
+    kind, _, name = item.partition(":")
+    if kind in ("formula", "const"):
+        return [name]
+    if kind == "defaults":
+        return [f"default_{name}_"]
+    if kind == "tables":
+        return ["msto", "wdifmr"]
+    if kind == "grid":
+        return [f"grid_{name}"]
+    if kind == "mutations":
+        return ["mutations", "MutSite"]
+    return None
+
+
+def translator_error_concerns(prop, item, closure=None):
+    """a translator failure is a broken obligation of `prop` only if a Lean module `prop` depends on refers to what could not be
+    extracted (the same rule lake applies to a changed definition: only importers are rebuilt)"""
+    names = item_names(item)
+    if names is None:
+        return True
+    closure = closure or import_closure(prop)
+    for m in closure:
+        if m.startswith("SspModel.Generated"):
+            continue
+        f = LEAN / (m.replace(".", "/") + ".lean")
+        if f.exists():
+            txt = f.read_text()
+            if any(re.search(r"Generated\." + re.escape(n), txt) for n in names):
+                return True
+    return False
+
+
 def lean_build(prop, broken, info, extra_targets=()):
     """translate + lake build of the property's modules + audit. Appends to `broken`."""
     import translate
@@ -72,7 +120,10 @@ def lean_build(prop, broken, info, extra_targets=()):
         tr = translate.run()
         info["translate_s"] = round(time.time() - t0, 2)
         info["generated_changed_vs_pinned"] = tr["changed_vs_pinned"]
-        for e in tr["errors"]:
+        closure = import_closure(prop)
+        mine = [e for e in tr["errors"] if translator_error_concerns(prop, e["item"], closure)]
+        info["translator_errors_elsewhere"] = [e["item"] for e in tr["errors"] if e not in mine]
+        for e in mine:
             broken.append({"kind": "translator", "name": e["item"], "detail": e["error"]})
         targets = ["ssp_driver", f"SspModel.Props.{prop}"] + list(extra_targets)
         info["extra_targets"] = len(extra_targets)
@@ -82,7 +133,7 @@ def lean_build(prop, broken, info, extra_targets=()):
             errs = [l for l in out.split("\n") if l.startswith("error:")]
             failed = sorted(set(re.findall(r"^- (SspModel\.[\w.]+|Driver)", out, re.M)))
             info["build_errors"] = errs[:20]
-            if not tr["changed_vs_pinned"] and not tr["errors"]:
+            if not tr["changed_vs_pinned"] and not tr["errors"]:  # (any translator error means the source changed)
                 # the committed Lean sources do not build on an unchanged tree: infrastructure
                 print("INFRASTRUCTURE: lake build failed on unchanged generated sources\n" + out[-3000:])
                 sys.exit(2)
